@@ -651,6 +651,15 @@ def task_backward_slots(ctx):
     ctx.assume_note("backward_slots: name flow only (which tensor sits in which slot); the VALUES placed in grads[...] are covered by additive_term_backward / scf_adjoint_inputs and, for the SCF adjoint itself, not at all")
 
 
+def task_backward_density_rows(ctx):
+    """the SCF map that SCF.backward differentiates is built with sym_eig_trunc1: the density it returns for molecule m uses molecule
+    m's own eigenvectors and its OWN number of occupied orbitals (equal layouts with different charges included).  Contract
+    shared with C05's density_rows."""
+    from contracts.C05_batching import _density_rows
+
+    _density_rows(ctx, "sym_eig_trunc1")
+
+
 def _quiet(fn):
     import contextlib, io
 
@@ -661,5 +670,5 @@ def _quiet(fn):
             return {"reproduced": False, "error": repr(exc)[:300]}
 
 
-TASKS_QUICK = ["additive_term_backward", "parameter_aliasing", "scf_adjoint_inputs", "backward_slots", "mixer_tape", "driver_tape"]
+TASKS_QUICK = ["additive_term_backward", "parameter_aliasing", "scf_adjoint_inputs", "backward_slots", "backward_density_rows", "mixer_tape", "driver_tape"]
 TASKS_THOROUGH = TASKS_QUICK
